@@ -127,6 +127,39 @@ def _instantiate(shape, counter, values):
     return [name] + kids
 
 
+# ------------------------------------------------------------------ E3
+# every ordered pair of binary operators of one kind, in both nestings op1(x, op2(y, z)) / op1(op2(x, y), z), over
+# run-time operands from a boundary alphabet: regrouping, flattening or reordering of nested operators shows as a
+# different failure / value (overflow, underflow, division by zero depend on the grouping)
+E3_U_VALUES = [0, 1, 2, 1 << 32, 1 << 63, (1 << 64) - 1]
+E3_B_VALUES = [b"", b"\x01", b"\xff" * 8, b"\xff" * 64]
+
+
+def e3_programs():
+    def binops(kind):
+        out = []
+        for name, (kinds, _fn) in sem.PURE.items():
+            if tuple(kinds) == (kind, kind):
+                out.append(name)
+        return sorted(out)
+    for kind, values, leaf in (("u", E3_U_VALUES, lambda i: ["Btoi", ["Arg", i]]), ("b", E3_B_VALUES, lambda i: ["Arg", i])):
+        ops = binops(kind)
+        enc = (lambda v: v.to_bytes(8, "big")) if kind == "u" else (lambda v: v)
+        inputs = [{"args": [enc(a), enc(b), enc(c)]} for a in values for b in values for c in values]
+        for o1 in ops:
+            for o2 in ops:
+                # the result kind of the inner operator must fit the outer operand kind
+                try:
+                    sample = sem.PURE[o2][1](*((1, 1) if kind == "u" else (b"\x01", b"\x01")))
+                    rk2 = "b" if isinstance(sample, (bytes, bytearray)) else "u"
+                except Exception:
+                    rk2 = kind
+                if rk2 != kind:
+                    continue
+                yield 2, wrap_value([o1, leaf(0), [o2, leaf(1), leaf(2)]]), inputs, 4
+                yield 2, wrap_value([o1, [o2, leaf(0), leaf(1)], leaf(2)]), inputs, 4
+
+
 VALUE_ASSIGNMENTS = [
     lambda i: 40 - 3 * i if 40 - 3 * i > 0 else 1,
     lambda i: (i + 1) % 2,
